@@ -1039,8 +1039,9 @@ fn oracle(f: &Forest, filtered: &Conv, unfiltered: &Conv, fo: Option<&OutDwarf>,
         (Conv::WriteErr(e), _) => return Some(format!("write-failed {e}")),
         (Conv::FilterErr(e), Conv::Ok(_)) => return Some(format!("filter-fails {e}")),
         (Conv::ConvErr(e), Conv::Ok(_)) => {
-            // label the two recorded findings: a reserved entry references, through a kind of
-            // reference the filter does not record, an entry that was not reserved
+            // name the cause: a root-DIE reference (recorded finding C19-3), or the behaviour of the
+            // repaired findings C19-1 / C19-2 (a reserved entry references, through an operation or
+            // location-list entry the filter used to ignore, an entry that was not reserved)
             let root_lost = |k: &BTreeSet<usize>| f.roots.iter().any(|r| refs_of(r, true).iter().any(|t| !k.contains(t)));
             let class = match kept {
                 Some(k) if root_lost(k) => "convfail-root-ref",
@@ -1193,8 +1194,9 @@ const ALL_TAGS: &[u16] = &[
 struct Style {
     /// references to the root, out of bounds, into the middle of a DIE
     invalid: bool,
-    /// reference kinds of the recorded findings (implicit_pointer, variable_value, entry_value
-    /// nesting, skipped location-list entries that carry references)
+    /// the recorded finding C19-3: unit root DIEs that reference DIEs (implicit_pointer,
+    /// variable_value, entry_value nesting and skipped location-list entries with references —
+    /// the repaired findings C19-1/C19-2 — are generated in every stream)
     finding_kinds: bool,
 }
 
@@ -1282,7 +1284,7 @@ fn gen_forest(rng: &mut Rng, n: usize, nunits: usize, st: Style) -> Vec<GEntry> 
             if same { Tgt::Ent(*rng.pick(&mine)) } else if rng.chance(1, 2) { Tgt::Ent(rng.below(n as u64) as usize) } else { Tgt::Ent(*rng.pick(&mine)) }
         };
         let gen_op = |rng: &mut Rng, nested: bool| -> String {
-            let k = rng.below(if st.finding_kinds { 12 } else { 8 });
+            let k = rng.below(12);
             let pre = if nested { "e" } else { "" };
             match k {
                 0 | 1 => format!("{pre}n"),
@@ -1332,8 +1334,8 @@ fn gen_forest(rng: &mut Rng, n: usize, nunits: usize, st: Style) -> Vec<GEntry> 
                     let locs: Vec<String> = (0..k)
                         .map(|_| {
                             let kind = if rng.chance(3, 4) { 'n' } else { *rng.pick(&['z', 'i', 't']) };
-                            // skipped entries carry references only in the finding stream
-                            let ops = if kind == 'n' || st.finding_kinds { gen_ops(rng) } else if rng.chance(1, 2) { "n".into() } else { String::new() };
+                            // entries the cooked iterator skips carry references too (fix 34014b9)
+                            let ops = if kind == 'n' || rng.chance(2, 3) { gen_ops(rng) } else if rng.chance(1, 2) { "n".into() } else { String::new() };
                             format!("{kind}{ops}")
                         })
                         .collect();
